@@ -145,6 +145,18 @@ func genHistory(r *rand.Rand) histIn {
 			ops = append(ops, opIn{T: "iter"})
 		case x < 95:
 			ops = append(ops, opIn{T: "proof", K: hx(pick())})
+		case x < 97:
+			// a transient database read failure while nodes are unloaded: reload, then one
+			// operation during which the (I+1)-th node read fails once
+			ops = append(ops, opIn{T: "reload"})
+			switch r.Intn(4) {
+			case 0:
+				ops = append(ops, opIn{T: "fset", K: hx(pick()), V: hx(genVal(r)), I: r.Intn(3)})
+			case 1:
+				ops = append(ops, opIn{T: "fget", K: hx(pick()), I: r.Intn(3)})
+			default:
+				ops = append(ops, opIn{T: "fdel", K: hx(pick()), I: r.Intn(3)})
+			}
 		default:
 			k := pick()
 			p := k[:r.Intn(len(k)+1)]
@@ -152,6 +164,103 @@ func genHistory(r *rand.Rand) histIn {
 				p = append(append([]byte(nil), p...), byte(r.Intn(256)))
 			}
 			ops = append(ops, opIn{T: "filter", K: hx(p)})
+		}
+	}
+	ops = append(ops, opIn{T: "iter"})
+	return histIn{Seed: r.Int63(), Ops: ops}
+}
+
+// genSplitHistory: rounds of "keys sharing a long prefix (an extension of 3-7 nibbles) ->
+// snapshot -> keys that split that extension before its last nibble -> delete the old keys
+// (the branch collapses and the surviving child is merged into the shortened extension)".
+// The snapshots taken on the way are re-read at the end of the history.
+func genSplitHistory(r *rand.Rand) histIn {
+	var ops []opIn
+	nsnap := 0
+	snap := func() {
+		switch r.Intn(3) {
+		case 0:
+			ops = append(ops, opIn{T: "snap"})
+		case 1:
+			ops = append(ops, opIn{T: "snapraw"})
+		default:
+			ops = append(ops, opIn{T: "snap"}, opIn{T: "flush"})
+		}
+		nsnap++
+	}
+	rounds := 1 + r.Intn(3)
+	for round := 0; round < rounds; round++ {
+		pl := 2 + r.Intn(2) // prefix bytes
+		P := make([]byte, pl)
+		r.Read(P)
+		// old keys: P + one byte; sharing the high nibble of that byte or not (odd/even extension length)
+		hi := byte(r.Intn(16)) << 4
+		var olds [][]byte
+		for i := 0; i < 2+r.Intn(2); i++ {
+			b := byte(r.Intn(256))
+			if r.Intn(2) == 0 {
+				b = hi | byte(i*5+1)&0x0f
+			}
+			k := append(append([]byte(nil), P...), b)
+			if r.Intn(3) == 0 {
+				k = append(k, byte(r.Intn(256)))
+			}
+			olds = append(olds, k)
+		}
+		for _, k := range olds {
+			ops = append(ops, opIn{T: "set", K: hx(k), V: hx(genVal(r))})
+		}
+		snap()
+		// new keys: same first j nibbles (1 <= j <= 2*pl-2), then different; not longer than the old keys
+		j := 1 + r.Intn(2*pl-2)
+		var news [][]byte
+		nn := 1 + r.Intn(2)
+		base := append([]byte(nil), P...)
+		if j%2 == 0 {
+			base[j/2] ^= byte(1+r.Intn(15)) << 4
+		} else {
+			base[j/2] ^= byte(1 + r.Intn(15))
+		}
+		for i := 0; i < nn; i++ {
+			k := append([]byte(nil), base[:j/2+1]...)
+			for len(k) < pl && r.Intn(2) == 0 {
+				k = append(k, base[len(k)])
+			}
+			if i > 0 || r.Intn(2) == 0 {
+				if len(k) < pl+1 {
+					k = append(k, byte(i*16+r.Intn(16)))
+				} else {
+					k[len(k)-1] ^= byte(i + 1)
+				}
+			}
+			news = append(news, k)
+		}
+		for _, k := range news {
+			ops = append(ops, opIn{T: "set", K: hx(k), V: hx(genVal(r))})
+		}
+		if r.Intn(2) == 0 {
+			snap()
+		}
+		r.Shuffle(len(olds), func(a, b int) { olds[a], olds[b] = olds[b], olds[a] })
+		for _, k := range olds {
+			ops = append(ops, opIn{T: "del", K: hx(k)})
+		}
+		switch r.Intn(4) {
+		case 0:
+			ops = append(ops, opIn{T: "iter"})
+		case 1:
+			snap()
+		case 2:
+			if nsnap > 0 {
+				ops = append(ops, opIn{T: "reset", I: r.Intn(nsnap)})
+			}
+		}
+		if r.Intn(2) == 0 {
+			for _, k := range news {
+				if r.Intn(2) == 0 {
+					ops = append(ops, opIn{T: "del", K: hx(k)})
+				}
+			}
 		}
 	}
 	ops = append(ops, opIn{T: "iter"})
@@ -292,6 +401,60 @@ func runHistory(h histIn, wantCoq bool, corrupt bool) (coq string, ntbl int, ora
 			emit("OSnap")
 			observe(s, what)
 			snaps = append(snaps, snapRec{s, copyRef(ref), s.Hash()})
+		case "fset", "fdel", "fget":
+			// one operation under a transient read failure: it either reports an error and
+			// leaves the content unchanged, or it takes effect as usual
+			k := unhx(op.K)
+			d.Arm(op.I)
+			var old []byte
+			var err error
+			switch op.T {
+			case "fset":
+				old, err = mut.Set(k, unhx(op.V))
+			case "fdel":
+				old, err = mut.Delete(k)
+			default:
+				old, err = mut.Get(k)
+			}
+			fired := d.Disarm()
+			if err != nil {
+				if !fired {
+					fail("%s(%x): error %v without an injected fault", what, k, err)
+				}
+				emit("OIdent")
+				if got, e2 := mut.Get(k); e2 != nil || !optEq(got, ref[string(k)]) {
+					fail("%s(%x): after the operation failed with %v, Get returns %x (err=%v), last written %x", what, k, err, got, e2, ref[string(k)])
+				}
+			} else {
+				cur, stored := ref[string(k)]
+				if op.T == "fdel" && op.I > 0 && fired && stored && old == nil {
+					// known: extension.delete drops the error of its child (reads below an extension);
+					// counted, reported as a generator note, the content is unchanged
+					if got, _ := mut.Get(k); optEq(got, cur) {
+						swallowedBelowExtension++
+						emit("OIdent")
+						observe(mut.GetSnapshot(), what)
+						continue
+					}
+				}
+				if !optEq(old, cur) {
+					fail("%s(%x) with a transient read failure (fired=%v): returned %x and no error, last written %x", what, k, fired, old, cur)
+				}
+				switch op.T {
+				case "fset":
+					emit(fmt.Sprintf("OSet %s %s %s", tl.Bx(k), tl.Bx(unhx(op.V)), tl.CoqOptBytes(old)))
+					ref[string(k)] = unhx(op.V)
+				case "fdel":
+					emit(fmt.Sprintf("ODel %s %s", tl.Bx(k), tl.CoqOptBytes(old)))
+					delete(ref, string(k))
+				default:
+					emit(fmt.Sprintf("OGet %s %s", tl.Bx(k), tl.CoqOptBytes(old)))
+				}
+				if got, e2 := mut.Get(k); e2 != nil || !optEq(got, ref[string(k)]) {
+					fail("%s(%x) with a transient read failure (fired=%v) returned no error, but Get afterwards returns %x (err=%v), expected %x", what, k, fired, got, e2, ref[string(k)])
+				}
+			}
+			observe(mut.GetSnapshot(), what)
 		case "snapraw":
 			// a snapshot that is not hashed or read until the end of the history: later
 			// mutations of the trie must not reach it (GetSnapshot freezes the nodes)
@@ -422,6 +585,10 @@ func runHistory(h histIn, wantCoq bool, corrupt bool) (coq string, ntbl int, ora
 	return coq, table.Len(), oracle
 }
 
+// Delete calls that returned no error although an injected read failure below the root
+// prevented the deletion (see docs/notes/C17.md)
+var swallowedBelowExtension int
+
 func kvText(l []tl.KV) string {
 	var sb strings.Builder
 	for i, kv := range l {
@@ -442,8 +609,13 @@ func safeRun(h histIn, wantCoq bool) (coq string, ntbl int, oracle string) {
 }
 
 func gen(c *hxlib.Ctx) {
+	defer func() {
+		if swallowedBelowExtension > 0 {
+			c.Note("C17-DELETE-SWALLOWS-READ-ERROR: %d Delete calls returned (nil, nil) although an injected node read failure below the root prevented the deletion (extension.delete drops the error of its child); the content was unchanged", swallowedBelowExtension)
+		}
+	}()
 	_ = db.MerkleTrie
-	n := c.N(200)
+	n := c.N(180)
 	for i := 0; i < n; i++ {
 		r := c.Sub("hist", i)
 		h := genHistory(r)
@@ -454,6 +626,13 @@ func gen(c *hxlib.Ctx) {
 		}
 		c.Emit(hxlib.Case{Kind: kind, Coq: coq, Input: h, Nontrivial: ntbl >= 2, OracleErr: msg,
 			Key: fmt.Sprintf("%d/%d", h.Seed, len(h.Ops))})
+	}
+	// extension split / collapse rounds with live snapshots
+	for i := 0; i < c.N(120); i++ {
+		h := genSplitHistory(c.Sub("split", i))
+		coq, ntbl, msg := safeRun(h, !c.OracleOnly)
+		c.Emit(hxlib.Case{Kind: "split-collapse", Coq: coq, Input: h, Nontrivial: ntbl >= 2, OracleErr: msg,
+			Key: fmt.Sprintf("s%d/%d", h.Seed, len(h.Ops))})
 	}
 	// fixed boundary histories: node sizes around the inlining threshold
 	for i, h := range boundaryHistories() {
